@@ -235,6 +235,11 @@ where
     while let Some(res) = poll_fn(|cx| body.as_mut().poll_next(cx)).await {
         let mut chunk = res.map_err(|err| DispatchError::ResponseBody(err.into()))?;
 
+        // an empty chunk carries no data; asking for zero capacity is never answered
+        if chunk.is_empty() {
+            continue;
+        }
+
         'send: loop {
             let chunk_size = cmp::min(chunk.len(), CHUNK_SIZE);
 
